@@ -637,7 +637,7 @@ func subWriteSide() mon.Sub {
 	apis := []string{"WriteMessage-client", "WriteClientText", "WriteClientBinary", "Writer.Write-client", "Writer.WriteThrough-client", "Writer.WriteThrough-server", "WriteMessage-server", "Writer.ReadFrom-client", "Writer.Write-server", "CipherWriter.Write", "MaskFrame", "MaskFrameWith", "UnmaskFrame", "GetWriter-client"}
 	return mon.Sub{
 		Name: "write-side", Exhaustive: true, Required: true,
-		N: func(t string) int { return len(apis) * len(sizes) * 3 },
+		N: func(t string) int { return len(apis) * len(sizes) * 4 },
 		Do: func(c *mon.C) {
 			api := apis[c.I%len(apis)]
 			sz := sizes[c.I/len(apis)%len(sizes)]
@@ -741,11 +741,20 @@ func subWriteSide() mon.Sub {
 				if api == "MaskFrame" {
 					out = ws.MaskFrame(f)
 				} else {
-					out = ws.MaskFrameWith(f, [4]byte{1, 2, 3, 4})
+					mk := helperKey(c, c.I/len(apis)/len(sizes)+1)
+					det["key"] = fmt.Sprintf("%x", mk)
+					out = ws.MaskFrameWith(f, mk)
 				}
 			case "UnmaskFrame":
 				f := ws.NewBinaryFrame(p)
-				f.Header.Masked, f.Header.Mask = true, [4]byte{5, 6, 7, 8}
+				// the key is the peer's choice, the all-zero key (XOR = identity) included; and a frame that is not
+				// masked at all may be handed to the helper too: "copies" does not depend on there being work
+				uk := helperKey(c, c.I/len(apis)/len(sizes))
+				f.Header.Masked, f.Header.Mask = true, uk
+				if c.I/len(apis)/len(sizes) == 3 {
+					f.Header.Masked = false
+				}
+				det["frame_key"] = fmt.Sprintf("%x", uk)
 				out = ws.UnmaskFrame(f)
 			}
 			if wt.bad > 0 {
@@ -811,6 +820,21 @@ func subWriteSide() mon.Sub {
 			c.Sample(det)
 		},
 	}
+}
+
+// helperKey: the keys a frame helper meets - fixed, all-zero, all-ones, random.
+func helperKey(c *mon.C, k int) [4]byte {
+	switch k % 4 {
+	case 0:
+		return [4]byte{5, 6, 7, 8}
+	case 1:
+		return [4]byte{}
+	case 2:
+		return [4]byte{0xff, 0xff, 0xff, 0xff}
+	}
+	var key [4]byte
+	c.Rng.Read(key[:])
+	return key
 }
 
 func main() {
